@@ -92,6 +92,8 @@ class SeekableFeed(io.RawIOBase):
         return self.pos
 
     def read(self, n=-1):
+        if self.closed:
+            raise ValueError('I/O operation on closed file')       # as any real stream does
         self.c.reads += 1
         avail = len(self.buf) - self.pos
         if avail <= 0:
@@ -135,6 +137,8 @@ class PipeFeed(io.RawIOBase):
         return False
 
     def read(self, n=-1):
+        if self.closed:
+            raise ValueError('I/O operation on closed file')       # as any real stream does
         self.c.reads += 1
         if not self.q:
             if self.eof:
@@ -170,6 +174,8 @@ class WholePipe(io.RawIOBase):
         return False
 
     def read(self, n=-1):
+        if self.closed:
+            raise ValueError('I/O operation on closed file')       # as any real stream does
         self.c.reads += 1
         left = len(self.data) - self.pos
         if n is None or n < 0 or n > left:
